@@ -71,10 +71,39 @@ func runC07(seed int64, n int, dir string, tier string) *Report {
 	coqfmt.DropNil = true
 	defer func() { coqfmt.DropNil = false }()
 	var prev []*sbom.Document
-	for i := 0; i < n; i++ {
-		d := g.WildDocument()
-		if i%10 == 0 {
+	// identifiers that resemble the reader's generated ones: each as a non-root node of a two-node document
+	refLike := append(append([]string{"protobom--libfoo", "protobom-", "protobom", "protobom---x", "protobom-auto", "protobom-auto--", "protobom-x-auto--1", "protobom-auto--000000001"}, gen.KeptRefLike...), gen.KeptProtobomRefLike...)
+	var fixed []*sbom.Document
+	for _, id := range refLike {
+		d := sbom.NewDocument()
+		d.Metadata.Id = "urn:uuid:reflike"
+		d.NodeList.Nodes = []*sbom.Node{{Id: "root", Name: "root", Type: sbom.Node_PACKAGE}, {Id: id, Name: "n", Version: "1", Type: sbom.Node_PACKAGE}}
+		d.NodeList.RootElements = []string{"root"}
+		d.NodeList.Edges = []*sbom.Edge{{Type: sbom.Edge_contains, From: "root", To: []string{id}}}
+		fixed = append(fixed, d)
+	}
+	for i := 0; i < n+len(fixed); i++ {
+		var d *sbom.Document
+		if i >= n {
+			d = fixed[i-n]
+		} else {
+			d = g.WildDocument()
+		}
+		if i < n && i%10 == 0 {
 			d = randomDocument(g) // plain well-formed documents too
+		}
+		if i < n && i%5 == 1 {
+			// well-formed documents whose identifiers resemble the reader's generated ones in every way short of
+			// being one: with and without the protobom- prefix, with no flag, with "auto" after the separator
+			d = randomDocument(g)
+			fam := append([]string{"protobom--libfoo", "protobom-", "protobom", "protobom---x", "protobom-auto", "protobom-auto--", "protobom-x-auto--1"}, gen.KeptProtobomRefLike...)
+			if i%10 == 6 {
+				fam = append(fam, gen.KeptRefLike...)
+			}
+			if len(d.NodeList.RootElements) > 1 {
+				d.NodeList.RootElements = d.NodeList.RootElements[:1] // one root: the CycloneDX serializers go all the way
+			}
+			g.RenameSome(d.NodeList, fam, 2+g.Int(3))
 		}
 		if coqfmt.Lossy(d) {
 			// nil elements nested inside nodes (or lists of nil elements only): the oracle below covers
